@@ -40,7 +40,14 @@ type Case struct {
 	Issuer    Field  `json:"issuer"`
 	Status    string `json:"status"` // success | requester | partial | nested-success | empty | absent
 	Age       string `json:"age"`    // fresh | half | stale | old | future
-	Root      string `json:"root"`   // logout | response | assertion | norootcomment | empty | text | notxml | badb64 | baddeflate | soap | bomb
+	Root      string `json:"root"`
+	// DelayH: saml.MaxIssueDelay in hours (0 = 1 h); the ages scale with it.  Prior: the SP value was configured
+	// with this trust configuration when it validated a genuine logout response (Warm), then reconfigured to
+	// Trust.  Noise: SP options that concern only what it sends (spkit.Noise).
+	DelayH int    `json:"delay_h,omitempty"`
+	Warm   bool   `json:"warm,omitempty"`
+	Prior  string `json:"prior,omitempty"`
+	Noise  uint64 `json:"noise,omitempty"`   // logout | response | assertion | norootcomment | empty | text | notxml | badb64 | baddeflate | soap | bomb
 }
 
 func value(f Field, correct string) *string {
@@ -69,7 +76,7 @@ var statuses = map[string][]string{
 	"absent":         {},
 }
 
-const delay = time.Hour
+var delay = time.Hour // saml.MaxIssueDelay of the case being judged (set in check)
 
 func ageOf(a string) time.Duration {
 	switch a {
@@ -255,6 +262,10 @@ func setOrRemove(el *etree.Element, name string, v *string) {
 }
 
 func check(c Case) pbt.Result {
+	delay = time.Hour
+	if c.DelayH > 0 && c.DelayH <= 96 {
+		delay = time.Duration(c.DelayH) * time.Hour
+	}
 	saml.MaxIssueDelay = delay
 	if rd := c.Entry == "redirect" || c.Entry == "request-get"; !rd && (c.Root == "baddeflate" || c.Root == "bomb") {
 		c.Root = "logout" // deflate framings exist only in the redirect encoding
@@ -266,7 +277,24 @@ func check(c Case) pbt.Result {
 	if err != nil {
 		return pbt.Result{Err: "harness: " + err.Error()}
 	}
-	sp := spkit.NewSP(spkit.Config{Trust: c.Trust})
+	first := c.Trust
+	if c.Prior != "" {
+		first = c.Prior
+	}
+	sp := spkit.NewSP(spkit.Config{Trust: first})
+	spkit.Noise(sp, c.Noise)
+	if c.Warm {
+		// a genuine, valid logout response has been validated by this very SP value before
+		w := forge.LogoutSpec{ID: "id-warm", InResponseTo: forge.S("id-warm-req"), IssueInstant: forge.T(time.Now().UTC()), Destination: forge.S(spkit.SPSLO),
+			Issuer: forge.S(spkit.IDPEntity), Status: []string{forge.StatusOK}, Sign: &forge.SignSpec{Key: "idp"}}
+		if el, err := forge.BuildLogout(&w); err == nil {
+			wb := base64.StdEncoding.EncodeToString(forge.Bytes(el))
+			_ = call(func() error { return sp.ValidateLogoutResponseForm(wb) })
+		}
+	}
+	if c.Prior != "" {
+		spkit.Retrust(sp, c.Trust)
+	}
 
 	var payload string
 	redirect := c.Entry == "redirect" || c.Entry == "request-get"
@@ -314,6 +342,13 @@ func check(c Case) pbt.Result {
 	res := pbt.Result{Classes: []string{"entry:" + c.Entry, "root:" + c.Root, "signer:" + c.Signer, "transform:" + c.Transform, "age:" + c.Age}}
 	// non-trivial: carries a signature verifying under some key and differs from the accepted baseline
 	res.NonTrivial = structural && c.Signer != "none" && (!valid || c.Trust != "meta1")
+	res.Classes = append(res.Classes, "sp-trust:"+c.Trust)
+	if c.Prior != "" && c.Warm {
+		res.Classes = append(res.Classes, "reconfigured-after-warm-up")
+	}
+	if c.DelayH > 0 {
+		res.Classes = append(res.Classes, fmt.Sprintf("max-issue-delay:%dh", c.DelayH))
+	}
 	if !structural {
 		res.Classes = append(res.Classes, "malformed")
 		res.NonTrivial = true
@@ -355,9 +390,22 @@ func genField(t *rapid.T, label string) Field {
 }
 
 func gen(t *rapid.T) Case {
+	c := gen0(t)
+	c.DelayH = rapid.SampledFrom([]int{0, 0, 6, 48}).Draw(t, "delayh")
+	c.Warm = rapid.IntRange(0, 3).Draw(t, "warm") == 0
+	if rapid.IntRange(0, 3).Draw(t, "reconfigured") == 0 {
+		c.Prior = rapid.SampledFrom(spkit.Trusts).Draw(t, "prior")
+	}
+	if rapid.IntRange(0, 2).Draw(t, "noise?") == 0 {
+		c.Noise = rapid.Uint64Range(1, 255).Draw(t, "noise")
+	}
+	return c
+}
+
+func gen0(t *rapid.T) Case {
 	return Case{
 		Entry:     rapid.SampledFrom([]string{"form", "redirect", "request-post", "request-get"}).Draw(t, "entry"),
-		Trust:     rapid.SampledFrom([]string{"meta1", "meta1", "meta2enc", "pinned", "fp256"}).Draw(t, "trust"),
+		Trust:     rapid.SampledFrom(append([]string{"meta1", "meta1", "meta1"}, spkit.Trusts...)).Draw(t, "trust"),
 		Signer:    rapid.SampledFrom([]string{"idp", "idp", "idp", "idp2", "idpenc", "attacker", "none"}).Draw(t, "signer"),
 		Transform: rapid.SampledFrom(transforms).Draw(t, "transform"),
 		Dest:      genField(t, "dest"),
@@ -368,11 +416,36 @@ func gen(t *rapid.T) Case {
 	}
 }
 
+// enumReconfigured: one SP value validates genuine logout responses under one trust configuration and is then
+// reconfigured to every other one; and the freshness boundary under other MaxIssueDelay settings.
+func enumReconfigured(_ string, emit func(Case)) {
+	ok := Field{Class: "correct"}
+	for _, prior := range spkit.Trusts {
+		for _, trust := range spkit.Trusts {
+			if prior == trust {
+				continue
+			}
+			for _, signer := range []string{"idp", "idp2"} {
+				for _, entry := range []string{"form", "redirect"} {
+					emit(Case{Entry: entry, Trust: trust, Prior: prior, Warm: true, Signer: signer, Transform: "none", Dest: ok, Issuer: ok, Status: "success", Age: "fresh", Root: "logout"})
+				}
+			}
+		}
+	}
+	for _, h := range []int{6, 48} {
+		for _, age := range []string{"fresh", "half", "stale", "old", "future"} {
+			for _, entry := range []string{"form", "redirect", "request-post", "request-get"} {
+				emit(Case{Entry: entry, Trust: "meta1", Signer: "idp", Transform: "none", Dest: ok, Issuer: ok, Status: "success", Age: age, Root: "logout", DelayH: h})
+			}
+		}
+	}
+}
+
 // enumSingleFault: every single deviation from the valid baseline, in every entry point and trust configuration.
 func enumSingleFault(_ string, emit func(Case)) {
 	ok := Field{Class: "correct"}
 	for _, entry := range []string{"form", "redirect", "request-post", "request-get"} {
-		for _, trust := range []string{"meta1", "meta2enc", "pinned", "fp256", "fp512", "metanouse"} {
+		for _, trust := range spkit.Trusts {
 			base := Case{Entry: entry, Trust: trust, Signer: "idp", Transform: "none", Dest: ok, Issuer: ok, Status: "success", Age: "fresh", Root: "logout"}
 			emit(base)
 			for _, s := range []string{"idp2", "idpenc", "attacker", "none"} {
@@ -425,14 +498,14 @@ func enumSingleFault(_ string, emit func(Case)) {
 var prop = &pbt.Prop[Case]{
 	ID: "C18",
 	Rule: "cases: LogoutResponse documents built by the harness and presented through ValidateLogoutResponseForm / Redirect / Request(GET, POST): signer in {trusted, second trusted, encryption-only IdP key, untrusted, nobody} x trust configuration x transformation after signing " +
-		"(signature moved into Status / Extensions, wrapped in an evil root with the signature copied, one field edited after signing, re-signed by the untrusted key with the trusted certificate in KeyInfo (alone, or in a two-certificate chain in either order), stripped, duplicated) x Destination, Issuer in {correct, wrong, near-miss, empty, absent} x Status x IssueInstant age {0, 1/2, 3/2, 10} x MaxIssueDelay(1 h) and future-dated, " +
+		"(signature moved into Status / Extensions, wrapped in an evil root with the signature copied, one field edited after signing, re-signed by the untrusted key with the trusted certificate in KeyInfo (alone, or in a two-certificate chain in either order), stripped, duplicated) x Destination, Issuer in {correct, wrong, near-miss, empty, absent} x Status x IssueInstant age {0, 1/2, 3/2, 10} x MaxIssueDelay in {1 h, 6 h, 48 h} and future-dated, on an SP value that may have validated a genuine logout response before - under another trust configuration (all ordered pairs enumerated) - and with unrelated SP options set, " +
 		"plus malformed framings (rootless, empty, text, truncated XML, bad base64, bad deflate, 11 MiB deflate bomb, SOAP envelope, a genuinely signed Response or Assertion presented as a logout response). " +
 		"exhaustive single-fault grid over every entry point and trust configuration plus rapid full combinations. oracle: nil error iff untouched trusted enveloped signature on the root, Destination = SLO URL, Issuer = IdP entity ID, fresh, Success; never a panic. " +
 		"non-trivial: the document carries a signature that verifies under some key and differs from the accepted baseline, or is malformed. distinct: sha256 of the JSON case.",
 	Gen:   gen,
 	Check: check,
 	Reset: fix.Reset,
-	Enums: []pbt.Enum[Case]{{Name: "single-fault-grid", Each: enumSingleFault}},
+	Enums: []pbt.Enum[Case]{{Name: "single-fault-grid", Each: enumSingleFault}, {Name: "reconfigured-trust-and-issue-delays", Each: enumReconfigured}},
 	Assumptions: []string{
 		"validateLogoutResponse reads the real clock (time.Now): the freshness boundary is probed with margins of 30 minutes (MaxIssueDelay set to 1 h), so this check depends on the wall clock within that margin",
 		"future-dated responses are not judged",
